@@ -443,16 +443,31 @@ func runStoreC03s(o *opts) error {
 		w.derive()
 		g := &histGen{r: r, w: w, p: prof, ids: prof.ids}
 		var txs []hTx
+		var c, obs string
 		if i%2 == 0 {
-			txs = g.genHistory()
-			stats["histories_cold"]++
+			// state-aware generation against the live database (store_gen.go)
+			h, err := openHarnessDb(w, tmp)
+			if err != nil {
+				return err
+			}
+			txs, obs = g.genAndRun(h)
+			h.close()
+			var cb strings.Builder
+			cb.WriteString(w.text())
+			for k := range txs {
+				cb.WriteString(" ")
+				cb.WriteString(w.txText(&txs[k]))
+			}
+			c = cb.String()
+			stats["histories_live"]++
 		} else {
 			txs = (&warmGen{histGen: g}).genHistoryWarm()
 			stats["histories_warm"]++
-		}
-		c, obs, err := runHistory(w, txs, tmp)
-		if err != nil {
-			return err
+			var err error
+			c, obs, err = runHistory(w, txs, tmp)
+			if err != nil {
+				return err
+			}
 		}
 		cases.line("%s", c)
 		impl.line("%s", obs)
